@@ -516,7 +516,10 @@ use std::os::unix::process::ExitStatusExt;
 use std::os::windows::process::ExitStatusExt;
 #[cfg(unix)]
 fn exit_status(code: i32) -> process::ExitStatus {
-    process::ExitStatus::from_raw(code)
+    // `from_raw` takes a wait status, not an exit code: the exit code lives in bits 8..16.
+    // Passing the code unshifted turns e.g. exit code 1 into "killed by signal 1" and
+    // exit code 128 into exit code 0.
+    process::ExitStatus::from_raw(code << 8)
 }
 #[cfg(windows)]
 fn exit_status(code: i32) -> process::ExitStatus {
